@@ -472,12 +472,43 @@ pub fn c04_state(rp: &Position, b: &Board, played: bool) -> Vec<Divergence> {
                 neighbours.push(q);
             }
         }
+        // ... and two more kinds of neighbour: the other side to move (only without a marker, so that
+        // one component changes) and one man removed (the first three non-king men)
+        if rp.ep.is_none() {
+            let mut q = rp.clone();
+            q.turn = rp.turn.flip();
+            neighbours.push(q);
+        }
+        let mut removed = 0;
+        for sq in 0..64u8 {
+            if let Some((_, pc)) = rp.at(sq) {
+                if pc != refchess::Pc::K && removed < 3 {
+                    let mut q = rp.clone();
+                    q.board[sq as usize] = None;
+                    q.ep = None;
+                    // rights that need the removed man are dropped by the parser's validation: keep the
+                    // comparison to neighbours the parser accepts as they are
+                    if rp.ep.is_none() {
+                        neighbours.push(q);
+                        removed += 1;
+                    }
+                }
+            }
+        }
         for q in neighbours {
             if let Ok(nb) = parse_board(&q.to_fen()) {
                 if nb == *b && (nb.zobrist() != b.zobrist() || hash_trait_bytes(&nb) != hash_trait_bytes(b)) {
                     d.push(Divergence::new(
                         "equal-boards-hash-differently",
                         format!("'{fen}' == '{}' according to the implementation, but their hashes differ", q.to_fen()),
+                    ));
+                }
+                // every component influences the hash: the keys are pairwise distinct and non-zero, so a
+                // position that differs in exactly one component cannot hash the same
+                if nb != *b && nb.zobrist() == b.zobrist() {
+                    d.push(Divergence::new(
+                        "component-does-not-influence-hash",
+                        format!("'{fen}' and '{}' differ in one component (and are unequal according to the implementation) but hash the same ({})", q.to_fen(), b.zobrist()),
                     ));
                 }
             }
